@@ -725,4 +725,183 @@ theorem C14_file_actual_only_by_event (n : Node) (op : Op) (j k : Nat) (G G' : F
     · exact absurd rfl hne
   all_goals first | exact hne rfl | (exfalso; apply hne; split <;> rfl)
 
+
+/-! ## 4. timing: a fix takes exactly `max(1, fixing_duration)` timesteps of a powered-on node -/
+
+/-- The items of the node are ticked in this step: it is a timestep and the node is ON after its power phase
+(a node that is OFF, BOOTING or SHUTTING_DOWN ticks nothing below it — timers freeze). -/
+def effTick (n : Node) (op : Op) : Bool := op = .tick && n.powerPhase.power = .on
+
+/-- number of timesteps of a trace that reach the node's items -/
+def effTicks (n : Node) : List Op → Nat
+  | [] => 0
+  | op :: ops => (if effTick n op then 1 else 0) + effTicks (n.apply op) ops
+
+/-- operations that write the health of item `name` from outside (attack, external `set_health_state`), or
+re-install it. A running fix is only guaranteed to take its time if none of these hits the item meanwhile. -/
+def touchesSw (name : String) : Op → Bool
+  | .swSet nm _ => nm = name
+  | .sw _ nm .compromise => nm = name
+  | .appInstall nm => nm = name
+  | _ => false
+
+/-- `x` is being fixed with `c` left on its countdown -/
+def Sw.Fixing (x : Sw) (c : Int) : Prop := x.actual = .fixing ∧ x.fixCd = some c ∧ x.op ≠ .installing
+
+theorem Sw.Fixing.of_rel {y x : Sw} {c : Int} (h : Sw.PowerRel y x) (hf : x.Fixing c) : y.Fixing c := by
+  refine ⟨?_, h.fixCd.trans hf.2.1, fun hi => hf.2.2 (h.installing.mp hi)⟩
+  rcases h.actual with e | ⟨u, _⟩
+  · exact e.trans hf.1
+  · rw [hf.1] at u; cases u
+
+theorem Sw.Fixing.scan {x : Sw} {c : Int} (hf : x.Fixing c) : x.scan.Fixing c := hf
+
+theorem Sw.handle_fixing (x : Sw) (c : Int) (r : SwReq) (hr : r ≠ .compromise) (hf : x.Fixing c) :
+    (x.handle r).1.Fixing c := by
+  obtain ⟨ha, hc, ho⟩ := hf
+  have hw : x.wake = x := by unfold Sw.wake; simp [ha]
+  cases r <;> simp only [Sw.handle]
+  case scan => exact ⟨ha, hc, ho⟩
+  case fix => unfold Sw.fix Sw.canFix; simp [ha]; exact ⟨ha, hc, ho⟩
+  case compromise => exact absurd rfl hr
+  case start => rw [hw]; split <;> first | exact ⟨ha, hc, ho⟩ | exact ⟨ha, hc, by simp⟩
+  all_goals ((repeat' split) <;> first | exact ⟨ha, hc, ho⟩ | exact ⟨ha, hc, by simp⟩)
+
+theorem Sw.auxTick_not_installing (x : Sw) (h : x.op ≠ .installing) :
+    x.auxTick.actual = x.actual ∧ x.auxTick.fixCd = x.fixCd ∧ x.auxTick.op ≠ .installing := by
+  unfold Sw.auxTick
+  split
+  · simp [h]
+  · split
+    · rename_i hr
+      split
+      · refine ⟨rfl, rfl, ?_⟩
+        simp only []
+        split
+        · simp
+        · exact h
+      · exact ⟨rfl, rfl, h⟩
+    · exact ⟨rfl, rfl, h⟩
+
+/-- one item tick of an item that is being fixed -/
+theorem Sw.tick_fixing (x : Sw) (c : Int) (hf : x.Fixing c) :
+    (c ≤ 1 → x.tick.actual = .good) ∧ (1 < c → x.tick.Fixing (c - 1)) := by
+  obtain ⟨ha, hc, ho⟩ := hf
+  unfold Sw.tick
+  have h1 : x.fixTick = if c - 1 ≤ 0 then { x with actual := .good, fixCd := none } else { x with fixCd := some (c - 1) } := by
+    unfold Sw.fixTick Sw.updateFix; simp [ha, hc]
+  constructor
+  · intro hle
+    have : c - 1 ≤ 0 := by omega
+    rw [h1, if_pos this]
+    exact (Sw.auxTick_not_installing { x with actual := .good, fixCd := none } ho).1
+  · intro hlt
+    have : ¬ c - 1 ≤ 0 := by omega
+    rw [h1, if_neg this]
+    have := Sw.auxTick_not_installing { x with fixCd := some (c - 1) } ho
+    exact ⟨this.1.trans ha, this.2.1, this.2.2⟩
+
+/-- one step of any operation that does not touch the item from outside -/
+theorem swEff_fixing (n : Node) (op : Op) (x : Sw) (c : Int) (hf : x.Fixing c) (hq : touchesSw x.name op = false) :
+    (effTick n op = true → (c ≤ 1 → (swEff n op x).actual = .good) ∧ (1 < c → (swEff n op x).Fixing (c - 1))) ∧
+    (effTick n op = false → (swEff n op x).Fixing c) := by
+  have hp := Sw.Fixing.of_rel (powerEff_rel n x) hf
+  cases op <;> simp only [swEff, effTick, decide_true, decide_false, Bool.true_and, Bool.false_and, Bool.false_eq_true,
+    false_implies, true_and, true_implies, reduceCtorEq, decide_eq_true_eq, decide_eq_false_iff_not]
+  case tick =>
+    unfold tickEff
+    constructor
+    · intro hon
+      simp only [hon, if_true]
+      split
+      · exact Sw.tick_fixing _ c hp.scan
+      · exact Sw.tick_fixing _ c hp
+    · intro hoff
+      simp only [hoff, if_false]
+      exact hp
+  case shutdown =>
+    (repeat' split) <;> first | exact hf | exact .of_rel x.shutDown_rel hf
+  case reset =>
+    (repeat' split) <;> first | exact hf | exact .of_rel x.shutDown_rel hf
+  case startup =>
+    split
+    · exact .of_rel (powerOnEff_rel n x) hf
+    · exact hf
+  case sw isApp nm r =>
+    split
+    · unfold Sw.request
+      split
+      · rename_i hacc
+        apply Sw.handle_fixing x c r _ hf
+        intro hr; subst hr
+        simp only [Sw.accepts, Bool.and_eq_true, decide_eq_true_eq] at hacc
+        simp [touchesSw, hacc.1.1.1] at hq
+      · exact hf
+    · exact hf
+  case swSet nm h =>
+    have : ¬ x.name = nm := by simpa [touchesSw, eq_comm] using hq
+    simp [this]; exact hf
+  case appInstall nm =>
+    have : ¬ x.name = nm := by simpa [touchesSw, eq_comm] using hq
+    simp [this]; exact hf
+  case appRun nm =>
+    (repeat' split) <;> first | exact hf | exact .of_rel x.startUp_rel hf
+  all_goals exact hf
+
+/-- **C14 fix timing, part 1 (not early).** Take any state in which the `i`-th software item is FIXING with `c` on
+its countdown, and any operation sequence that does not hit that item with an external health write, a compromise or
+a re-installation (everything else is allowed: other items' events, scans, repeated fix requests, lifecycle
+requests, power loss …). As long as fewer than `max(1,c)` timesteps have reached the node's items, the item is still
+FIXING and its countdown is `c` minus that number. -/
+theorem C14_fix_not_early (ops : List Op) : ∀ (n : Node) (i : Nat) (x : Sw) (c : Int),
+    n.sws[i]? = some x → x.Fixing c → (∀ op ∈ ops, touchesSw x.name op = false) →
+    (effTicks n ops : Int) < max 1 c →
+    ∃ x', (n.run ops).sws[i]? = some x' ∧ x'.name = x.name ∧ x'.Fixing (c - effTicks n ops) := by
+  induction ops with
+  | nil => intro n i x c hx hf _ _; exact ⟨x, hx, rfl, by simpa [effTicks] using hf⟩
+  | cons op ops ih =>
+    intro n i x c hx hf hq hk
+    have hx1 : (n.apply op).sws[i]? = some (swEff n op x) := by rw [apply_sws, List.getElem?_map, hx]; rfl
+    have hn1 := (swEff_name n op x).1
+    have hstep := swEff_fixing n op x c hf (hq op (List.mem_cons_self))
+    have hq' : ∀ o ∈ ops, touchesSw (swEff n op x).name o = false := by
+      intro o ho; rw [hn1]; exact hq o (List.mem_cons_of_mem _ ho)
+    simp only [effTicks] at hk ⊢
+    simp only [Node.run]
+    by_cases he : effTick n op = true
+    · simp only [he, if_true] at hk ⊢
+      have hc1 : 1 < c := by omega
+      have hf1 := (hstep.1 he).2 hc1
+      obtain ⟨x', h1, h2, h3⟩ := ih (n.apply op) i (swEff n op x) (c - 1) hx1 hf1 hq' (by omega)
+      refine ⟨x', h1, h2.trans hn1, ?_⟩
+      have : c - 1 - (effTicks (n.apply op) ops : Int) = c - ((1 + effTicks (n.apply op) ops : Nat) : Int) := by omega
+      rw [← this]; exact h3
+    · have he' : effTick n op = false := by simpa using he
+      simp only [he', Bool.false_eq_true, if_false, Nat.zero_add] at hk ⊢
+      have hf1 := hstep.2 he'
+      obtain ⟨x', h1, h2, h3⟩ := ih (n.apply op) i (swEff n op x) c hx1 hf1 hq' hk
+      exact ⟨x', h1, h2.trans hn1, h3⟩
+
+/-- **C14 fix timing, part 2 (on time).** … and the `max(1,c)`-th timestep that reaches the node's items makes the
+item GOOD. Together: a fix returns the software to GOOD after exactly `max(1, c)` timesteps of a powered-on node. -/
+theorem C14_fix_completes_on_time (ops : List Op) (n : Node) (i : Nat) (x : Sw) (c : Int)
+    (hx : n.sws[i]? = some x) (hf : x.Fixing c) (hq : ∀ op ∈ ops, touchesSw x.name op = false)
+    (hk : (effTicks n ops : Int) + 1 = max 1 c) (ht : effTick (n.run ops) .tick = true) :
+    ∃ x', ((n.run ops).apply .tick).sws[i]? = some x' ∧ x'.name = x.name ∧ x'.actual = .good := by
+  obtain ⟨x1, h1, h2, h3⟩ := C14_fix_not_early ops n i x c hx hf hq (by omega)
+  refine ⟨swEff (n.run ops) .tick x1, ?_, ((swEff_name _ _ _).1).trans h2, ?_⟩
+  · rw [apply_sws, List.getElem?_map, h1]; rfl
+  · exact ((swEff_fixing (n.run ops) .tick x1 _ h3 rfl).1 ht).1 (by omega)
+
+/-- An accepted `fix` request puts the item into FIXING with the configured duration on the countdown; `fix` is
+accepted exactly for a RUNNING item of a powered-on node whose actual health is GOOD or COMPROMISED. -/
+theorem C14_fix_request (n : Node) (k : Bool) (i : Nat) (x : Sw) (hx : n.sws[i]? = some x) (hon : n.power = .on)
+    (hk : x.isApp = k) (hr : x.op = .running) (hc : x.canFix = true) :
+    ∃ x', (n.apply (.sw k x.name .fix)).sws[i]? = some x' ∧ x'.name = x.name ∧ x'.Fixing x.fixDur := by
+  refine ⟨swEff n (.sw k x.name .fix) x, ?_, (swEff_name _ _ _).1, ?_⟩
+  · rw [apply_sws, List.getElem?_map, hx]; rfl
+  · simp only [swEff, hon, if_true, Sw.request, Sw.accepts, hk, hr, SwReq.known, SwReq.allowed, SwReq.guard, Sw.handle,
+      Sw.fix, hc, decide_true, Bool.and_self]
+    exact ⟨rfl, rfl, by simp [hr]⟩
+
 end Primaite.Health
